@@ -93,7 +93,7 @@ def run(ctx):
                     exhaustive=True,
                     assumptions=["evaluated on the input collection <<MR1 Patient, MR2 Observation>>",
                                  "custom functions are instrumented mocks (record input and arguments, return what the case configures)",
-                                 "typed-nil values, nil options and nested valid collections are outside the property's domain",
+                                 "nil options and nested valid collections are outside the property's domain",
                                  "variadic custom functions: any outcome that is not a crash (DESIGN.md 7.1)"])
 
 
